@@ -264,7 +264,7 @@ def tables() -> dict:
     # order of the two writes of the rescan loop (DiscriminatedUnionUnpackerBuilder._add_body)
     after_build = False
     for node in ast.walk(ast.parse(_src("mashumaro/core/meta/types/unpack.py"))):
-        if isinstance(node, ast.FunctionDef) and node.name == "_add_body":
+        if isinstance(node, ast.FunctionDef) and node.name == "_add_body" and "_add_build_variant_unpacker" in ast.unparse(node):
             calls = [(sub.lineno, sub.func.attr) for sub in ast.walk(node) if isinstance(sub, ast.Call) and isinstance(sub.func, ast.Attribute)
                      and sub.func.attr in ("_add_register_variant_tags", "_add_build_variant_unpacker")]
             regs = [ln for ln, a in calls if a == "_add_register_variant_tags"]
